@@ -3,12 +3,12 @@
     [squash_self_loops], [squash_concat_attrs], [squash_prefix], [squash_edge_attr] are GENERATED from
     resolve.py on every run (Gen/HydroGen.v).
 
-    After /repo commit 03eb080 (squash_atoms follows `squashed` to the atom that still exists and skips
-    pairs that are already merged) the bookkeeping theorems hold for EVERY well-formed molecule graph on
-    which the loop returns: the former hypothesis [squash_safe] is gone (the root-following lookups are
-    proved total, [C10_sq_root_total]); the former refutations for the classes redundant-squash-cycle
-    and stale-squashed-entry are now positive Examples.  One defect class remains, refuted below:
-    stale-hcount-aromatic (a merged aromatic atom keeps the hydrogen count of one copy). *)
+    After /repo commits 03eb080 (squash_atoms follows `squashed` to the atom that still exists and skips
+    pairs that are already merged) and e7bad38 (the merged atom gets the smaller hydrogen count of its two
+    copies) no defect class is open: the bookkeeping theorems hold for EVERY well-formed molecule graph
+    (root-following lookups proved total, [C10_sq_root_total]; squash_atoms proved total on typed graphs,
+    [C10_squash_total]); the former refutations (classes redundant-squash-cycle, stale-squashed-entry,
+    stale-hcount-aromatic) are positive Examples on the same witnesses. *)
 From Coq Require Import String.
 From Coq Require Import List Ascii ZArith Bool.
 From CGV Require Import Base.PyBase Base.PyVal Base.NxGraph Gen.HydroGen Hydro.Hydrogens Hydro.Squash
@@ -44,6 +44,7 @@ Theorem C10_squash_membership : forall g u v au av fu fv mu mv, wf_graph g -> u 
   nattrs g u = Some au -> nattrs g v = Some av ->
   aget (S "fragid") au = Some (VList fu) -> aget (S "fragid") av = Some (VList fv) ->
   aget (S "mapping") au = Some (VList mu) -> aget (S "mapping") av = Some (VList mv) ->
+  hnum au -> hnum av ->
   forall sq a b bond, starts_squash bond = Ok true ->
   sq_root (sq_fuel sq) sq a = Ok u -> sq_root (sq_fuel sq) sq b = Ok v ->
   exists g2, squash_step (g, sq) (a, b, bond) = Ok (g2, sq_set v u sq) /\
@@ -51,7 +52,9 @@ Theorem C10_squash_membership : forall g u v au av fu fv mu mv, wf_graph g -> u 
     (forall y x, has_edge g2 y x = contracted_edge g u v y x) /\
     (exists A, nattrs g2 u = Some A /\ aget (S "fragid") A = Some (VList (fu ++ fv))
                /\ aget (S "mapping") A = Some (VList (mu ++ mv))
-               /\ forall k, k <> S "fragid" -> k <> S "mapping" -> k <> S "contraction" -> aget k A = aget k au) /\
+               /\ (forall k, k <> S "fragid" -> k <> S "mapping" -> k <> S "contraction" -> k <> squash_min_attr ->
+                           aget k A = aget k au)
+               /\ aget squash_min_attr A = hcount_merged au av /\ hnum A) /\
     (forall y, y <> u -> y <> v -> nattrs g2 y = nattrs g y).
 Proof. exact squash_membership. Qed.
 
@@ -74,21 +77,21 @@ Proof. exact squash_count_per_pair. Qed.
 
 (** TOTALITY: on a well-formed graph whose nodes carry list-valued fragid and mapping and whose `bonding`
     edge attributes are descriptor pairs, squash_atoms always returns (so the count theorem is unconditional) *)
-Theorem C10_squash_total : forall g, wf_graph g -> typed_g g -> bondings_ok (edge_attr_items g squash_edge_attr) ->
+Theorem C10_squash_total : forall g, wf_graph g -> typed_g g -> hnum_g g -> bondings_ok (edge_attr_items g squash_edge_attr) ->
   exists g', squash_atoms g = Ok g' /\ typed_g g' /\ wf_graph g' /\
              (length g' + length (squash_plan [] (bang_items g)) = length g)%nat.
 Proof. exact squash_total. Qed.
 (** the decidable forms of these hypotheses, evaluated by ./check C10 on every recorded input of squash_atoms *)
 Theorem C10_hypotheses_decidable : forall g,
-  (wf_graphb g = true -> wf_graph g) /\ (typed_gb g = true -> typed_g g) /\
+  (wf_graphb g = true -> wf_graph g) /\ (typed_gb g = true -> typed_g g) /\ (hnum_gb g = true -> hnum_g g) /\
   (bondings_okb g = true -> bondings_ok (edge_attr_items g squash_edge_attr)).
-Proof. intros g. split; [apply wf_graphb_sound|]. split; [apply typed_gb_sound|apply bondings_okb_sound]. Qed.
+Proof. intros g. split; [apply wf_graphb_sound|]. split; [apply typed_gb_sound|]. split; [apply hnum_gb_sound|apply bondings_okb_sound]. Qed.
 (** for resolver-produced graphs the typedness is not a hypothesis: it follows from what
     resolve_disconnected_molecule / merge_graphs establish (resolver component, Resolve/CopyProofs.v) and is
     kept by the all-atom bond-creation step *)
 Theorem C10_squash_total_resolver : forall fd legacy meta m1 fg1 m2 fg2, CopyProofs.wf_dict fd ->
   GraphOps.resolve_disconnected fd meta = Ok (m1, fg1) -> GraphOps.bonding_step legacy true meta m1 fg1 = Ok (m2, fg2) ->
-  wf_graph m2 -> bondings_ok (edge_attr_items m2 squash_edge_attr) ->
+  wf_graph m2 -> hnum_g m2 -> bondings_ok (edge_attr_items m2 squash_edge_attr) ->
   exists g', squash_atoms m2 = Ok g' /\ typed_g g' /\ wf_graph g' /\
              (length g' + length (squash_plan [] (bang_items m2)) = length m2)%nat.
 Proof. exact squash_total_resolver. Qed.
@@ -98,7 +101,8 @@ Proof. exact squash_total_resolver. Qed.
     the bonded graph [gd] of the disjoint one by [shares] (one extra node v', the copy of v next to u,
     instead of the cut bond u-v; a `!` bond v'~v; everything else identical), then squash_atoms gs is gd
     through the explicit atom map [phi v v'] — a bijection on nodes preserving adjacency — whichever
-    of the two copies is kept; all other atoms keep their attributes. *)
+    of the two copies is kept; all other atoms keep their attributes; the kept copy belongs to both coarse
+    nodes and its hydrogen count is the MINIMUM of the two copies' counts ([hcount_merged]). *)
 Theorem C10_share_vs_cut_one : forall gd gs u v v' a b g', wf_graph gd -> wf_graph gs -> shares gd gs u v v' ->
   bang_items gs = [(a, b)] -> (a = v' /\ b = v) \/ (a = v /\ b = v') -> squash_atoms gs = Ok g' ->
   (forall y, has_node g' y = true -> has_node gd (phi v v' y) = true) /\
@@ -106,7 +110,12 @@ Theorem C10_share_vs_cut_one : forall gd gs u v v' a b g', wf_graph gd -> wf_gra
   (forall y x, has_node g' y = true -> has_node g' x = true -> phi v v' y = phi v v' x -> y = x) /\
   (forall y x, has_node g' y = true -> has_node g' x = true ->
      has_edge g' y x = has_edge gd (phi v v' y) (phi v v' x)) /\
-  (forall y, y <> v -> y <> v' -> nattrs g' y = nattrs gs y).
+  (forall y, y <> v -> y <> v' -> nattrs g' y = nattrs gs y) /\
+  (forall au av fu fv mu mv, nattrs gs a = Some au -> nattrs gs b = Some av ->
+     aget (S "fragid") au = Some (VList fu) -> aget (S "fragid") av = Some (VList fv) ->
+     aget (S "mapping") au = Some (VList mu) -> aget (S "mapping") av = Some (VList mv) -> hnum au -> hnum av ->
+     exists A, nattrs g' a = Some A /\ aget (S "fragid") A = Some (VList (fu ++ fv)) /\
+               aget (S "mapping") A = Some (VList (mu ++ mv)) /\ aget squash_min_attr A = hcount_merged au av).
 Proof. exact share_vs_cut_one. Qed.
 Example C10_share_vs_cut_one_nonvacuous :
   wf_graph gd_ex /\ wf_graph gs_ex /\ shares gd_ex gs_ex 0 1 2 /\ bang_items gs_ex = [(2, 1)] /\
@@ -143,13 +152,14 @@ Example C10_fixed_stale_squashed_entry :
              node_get g' 1 (S "fragid") = Some (VList [VInt 1; VInt 0; VInt 2; VInt 3]) /\ neighbors g' 1 = [4].
 Proof. exact stale_entry_resolves. Qed.
 
-(** REFUTED on the current code (known finding stale-hcount-aromatic) *)
-Theorem C10_refuted_stale_hcount_aromatic :
+(** formerly refuted (class stale-hcount-aromatic): toluene, ring atom shared, methyl fragment first *)
+Example C10_fixed_stale_hcount_aromatic :
   wf_graph g_toluene /\
   exists g', squash_atoms g_toluene = Ok g' /\
-             SquashCheck.stale_hcount_aromatic (observe g') = true /\
-             node_get g' 0 (S "hcount") = Some (VFlt (S "1.5")) /\ bonds_half g' 0 = Ok 8.
-Proof. exact refuted_stale_hcount. Qed.
+             SquashCheck.stale_hcount_aromatic (observe g') = false /\
+             node_get g' 0 (S "hcount") = Some (VInt 0) /\ bonds_half g' 0 = Ok 8 /\
+             node_get g' 0 (S "fragid") = Some (VList [VInt 0; VInt 1]).
+Proof. exact toluene_resolves. Qed.
 
 Print Assumptions C10_contracted_spec.
 Print Assumptions C10_squash_neighbours.
@@ -157,7 +167,6 @@ Print Assumptions C10_squash_membership.
 Print Assumptions C10_sq_root_total.
 Print Assumptions C10_squash_count.
 Print Assumptions C10_squash_count_per_pair.
-Print Assumptions C10_refuted_stale_hcount_aromatic.
 Print Assumptions C10_squash_total.
 Print Assumptions C10_hypotheses_decidable.
 Print Assumptions C10_squash_total_resolver.
